@@ -4,6 +4,9 @@
 //   MODE_SCHED    one invocation: -j / pools / jobserver tokens / spawn failures            C06
 //   MODE_CRASH    a build killed at a symbolic persistence event or interrupted, recovery   C07
 #include "scenarios.h"
+#ifdef VIA_MAIN
+#include "mainkit.h"
+#endif
 #ifndef HISTORY
 #define HISTORY 2
 #endif
@@ -45,20 +48,20 @@ static void user_operations(const Scenario* sc) {
 #endif
   // at most one output, depfile or log is deleted
   std::vector<std::string> outs;
-  for (size_t i = 0; i < g_tree->files.size(); i++) { VFile& f = g_tree->files[i]; bool is_src = false; for (size_t k = 0; k < src.size(); k++) is_src = is_src || src[k] == f.name; if (!is_src && f.exists && f.name != ".ninja_lock") outs.push_back(f.name); }
+  for (size_t i = 0; i < g_tree->files.size(); i++) { VFile& f = g_tree->files[i]; bool is_src = false; for (size_t k = 0; k < src.size(); k++) is_src = is_src || src[k] == f.name; if (!is_src && f.exists && f.name != ".ninja_lock" && f.name != "build.ninja") outs.push_back(f.name); }
   int del = verif_choice("delete_output", (int)outs.size() + 1);
   if (del > 0) { g_tree->remove(outs[del - 1]); verif_note(("delete " + outs[del - 1]).c_str()); }
   // the manifest is switched to another variant (changed command line, added statement ...)
   int nvar = 1; while (nvar < 3 && sc->manifest[nvar]) nvar++;
-  if (nvar > 1) { g_manifest_variant = verif_choice("manifest_variant", nvar); }
+  if (nvar > 1 && !scenario_regenerates()) { g_manifest_variant = verif_choice("manifest_variant", nvar); }     // (a regenerating scenario switches by editing configure.in)
 }
 static void observe(const InvocationResult& r) {
   verif_obs(r.rc); verif_obs((long)r.started.size());
   for (size_t i = 0; i < r.started.size(); i++) verif_obs(r.started[i]);
 #ifdef DEBUG_EVENTS
-  printf("inv rc=%d up_to_date=%d err=%s\n", r.rc, r.up_to_date, r.err.c_str());
-  for (size_t i = 0; i < r.events.size(); i++) printf("  %s\n", r.events[i].c_str());
-  for (size_t i = 0; i < g_tree->files.size(); i++) printf("  file %s exists=%d mtime=%ld content=%ld\n", g_tree->files[i].name.c_str(), g_tree->files[i].exists, (long)g_tree->files[i].mtime, g_tree->files[i].content);
+  { char b[512]; snprintf(b, sizeof b, "inv rc=%d up_to_date=%d parsed=%d added=%d err=%s", r.rc, r.up_to_date, r.parsed, r.added, r.err.c_str()); verif_note(b);
+  for (size_t i = 0; i < r.events.size(); i++) verif_note(("  " + r.events[i]).c_str());
+  for (size_t i = 0; i < g_tree->files.size(); i++) { bool ok = true; long want = ref_producer(g_tree->files[i].name) ? clean_content(g_tree->files[i].name, &ok) : -1; snprintf(b, sizeof b, "  file %s exists=%d mtime=%ld content=%ld clean=%ld", g_tree->files[i].name.c_str(), g_tree->files[i].exists, (long)g_tree->files[i].mtime, g_tree->files[i].content, want); verif_note(b); } }
 #endif
 }
 // everything built once, sequentially, no faults: a reachable starting state
@@ -549,6 +552,9 @@ extern "C" int harness_main() {
     if (r.rc == 0) {
       verif_reach(r.up_to_date ? "nothing-to-do" : "built");
       if (inv > 0 && !r.up_to_date) verif_reach("incremental-build");
+      if (scenario_regenerates()) {      // the reference is the manifest a from-scratch configure + build would use
+        int have = g_manifest_variant; g_manifest_variant = regen_variant(); load_reference(); if (have != g_manifest_variant) verif_reach("manifest-not-regenerated"); else if (r.events.size() && r.events[0].compare(0, 17, "start build.ninja") == 0) verif_reach("manifest-regenerated");
+        g_manifest_variant = have; }
 #ifdef CHECK_C01
       assert_clean_equal(o.targets, "C01: after a successful build every requested target and everything it depends on equals the from-scratch build");
 #endif
